@@ -375,3 +375,7 @@ def guard_sentinel(ctx, prog):
 guard_sentinel.rule_id = "C05.GUARD-sentinel"
 
 RULES = [wmc_user, guard_insert, pdom_release, bracket, guard_transitions, guard_sentinel]
+
+# control signature of the bookkeeping effects this property depends on (rules/ctrlsig.py)
+from .ctrlsig import make_rule as _ctrl_rule  # noqa: E402
+RULES.append(_ctrl_rule("C05"))
